@@ -54,6 +54,66 @@ pub fn gen_big(r: &mut Rng, cases: usize, size: usize, out: &mut Out) {
     }
 }
 
+/// few variables with LARGE, sparse indices (around 32, 64, 128, 256, 65 536 and 2^32): the
+/// sampled mode of `newbig` with exactly these variables free is a complete truth-table oracle
+pub fn gen_sparse(r: &mut Rng, cases: usize, out: &mut Out) {
+    let hot: [u64; 22] = [
+        0, 1, 30, 31, 32, 33, 62, 63, 64, 65, 66, 127, 128, 129, 255, 256, 257, 65535, 65536, 65537, 1 << 31, (1 << 32) + 1,
+    ];
+    for case in 0..cases {
+        let k = r.range(2, 7);
+        let mut vars: Vec<u64> = Vec::new();
+        while vars.len() < k {
+            let c = hot[r.usize(hot.len())];
+            if !vars.contains(&c) {
+                vars.push(c);
+            }
+        }
+        vars.sort_unstable();
+        let n = vars[k - 1] + 1 + r.below(3);
+        out.line(&format!("case bddsparse-{case}"));
+        out.line(&format!("newbig {n} 0 {}", vars.iter().map(|v| v.to_string()).collect::<Vec<_>>().join(",")));
+        let mut len = 2usize;
+        // variables are created in random order
+        let mut order = vars.clone();
+        for i in (1..order.len()).rev() {
+            order.swap(i, r.usize(i + 1));
+        }
+        for v in order.iter().take(r.range(1, k)) {
+            out.line(&format!("var {v}"));
+            len += 1;
+        }
+        for _ in 0..r.range(4, 40) {
+            let pick = |r: &mut Rng| if len > 4 && r.chance(2, 3) { len - 1 - r.usize(4.min(len)) } else { r.usize(len) };
+            let a = pick(r);
+            let b = pick(r);
+            match r.below(16) {
+                0 | 1 => out.line(&format!("var {}", vars[r.usize(k)])),
+                2 | 3 => out.line(&format!("not #{a}")),
+                4 | 5 => out.line(&format!("and #{a} #{b}")),
+                6 | 7 => out.line(&format!("or #{a} #{b}")),
+                8 => out.line(&format!("imp #{a} #{b}")),
+                9 | 10 => out.line(&format!("iff #{a} #{b}")),
+                11 | 12 => out.line(&format!("xor #{a} #{b}")),
+                13 => out.line(&format!("const {}", r.below(2))),
+                _ => {
+                    if r.chance(1, 5) {
+                        // a variable no diagram depends on (restricted to its base value)
+                        out.line(&format!("restrict #{a} {} 0", vars[r.usize(k)] + 3));
+                    } else {
+                        out.line(&format!("restrict #{a} {} {}", vars[r.usize(k)], r.below(2)));
+                    }
+                }
+            }
+            len += 1;
+        }
+        for a in 0..len {
+            out.line(&format!("q #{a}"));
+        }
+        out.line("finish");
+    }
+}
+
 /// exhaustive small scope: EVERY sequence of `len` operations over `nv` variables (operands: any
 /// earlier result or a terminal), each followed by the audit of `finish`
 pub fn gen_exh(nv: usize, len: usize, out: &mut Out) {
